@@ -55,6 +55,8 @@ def gen_case(rng, scale=1):
         recomb_prob=rng.choice([0.0, 0.6, 1.0]),
         kinds=rng.choice([["snv"], ["snv"], ["snv", "snv", "ins", "del"]]),
     )
+    # a chromosome on which nobody has anything to phase (F13: --recombination-list used to crash there)
+    params["empty_last_contig"] = bool(params["n_contigs"] > 1 and rng.random() < 0.15)
     distrust = rng.random() < 0.5
     params["gt_error_prob"] = rng.choice([0.1, 0.2]) if distrust else 0.0
     lists = rng.choice([(1, 1, 1), (1, 1, 1), (1, 0, 0), (0, 1, 0), (0, 0, 1), (1, 1, 0), (0, 1, 1), (1, 0, 1), (0, 0, 0)])
